@@ -169,6 +169,64 @@ class Feedback(_Step):
     return self_._num_feedbacks == old['nf'] + 1 and self_._num_proposals == old['np']
 
 
+@register
+class FeedbackRefused(_Step):
+  """feedback() that is refused (a reward of the wrong shape) or whose
+  algorithm-specific `_feedback` raises is not counted: `recover` replays only
+  feedbacks that were delivered, so a counted-but-failed feedback would make the
+  recovered counters differ from the live ones."""
+  target = f'{G}:DNAGenerator.feedback'
+  name = 'DNAGenerator.feedback/refused'
+  raises = {Exception: ('counters_unchanged',)}
+  inline = (f'{G}:DNAGenerator.multi_objective',)
+
+  def inputs(self, b):
+    return dict(self=self.gen(b, geno.DNAGenerator), dna=absobj.ref(geno.DNA, z3.Int('d')),
+                reward=b.choice('reward_kind', [b.real('reward'), (b.real('r0'), b.real('r1'))])), {}
+
+  def setup_policy(self, policy):
+    def _feedback(interp, frame, args, kwargs):
+      interp.path.event('call', '_feedback')
+      if interp.path.decide(2, 'algorithm-raises') == 1:
+        raise I.PyRaise(I.ExcVal(ValueError, ('algorithm refused the feedback',)))
+      return None
+    policy.contracts[f'{G}:DNAGenerator._feedback'] = _feedback
+
+    # a subclass that overrides `_feedback` (needs_feedback) -- or not
+    def getattr_h(interp, obj, name, frame):
+      if isinstance(obj, SObj) and obj.cls is geno.DNAGenerator and name == 'needs_feedback':
+        return SBool(z3.Bool('needs_feedback'))
+      return NotImplemented
+    policy.handlers[('getattr', SObj)] = getattr_h
+
+  def old(self, self_):
+    return dict(np=self_._num_proposals, nf=self_._num_feedbacks)
+
+  def ensures_one_more_feedback(self, self_, old):
+    return self_._num_feedbacks == old['nf'] + 1 and self_._num_proposals == old['np']
+
+  def raises_counters_unchanged(self, self_, old):
+    return self_._num_proposals == old['np'] and self_._num_feedbacks == old['nf']
+
+  def replay(self, obligation, m):
+    class _NeedsFeedback(geno.Sweeping):
+      def _feedback(self, dna, reward):
+        pass
+    g = _NeedsFeedback()
+    g.setup(pg.dna_spec(pg.oneof([1, 2, 3])))
+    d = g.propose()
+    before = g.num_feedbacks
+    try:
+      g.feedback(d, (1.0, 2.0))      # single-objective generator: refused
+      raised = False
+    except ValueError:
+      raised = True
+    bad = raised and g.num_feedbacks != before
+    return dict(outcome='reproduced' if bad else 'not-reproduced',
+                detail=f'feedback(d, (1.0, 2.0)) on a single-objective generator raised={raised}; '
+                       f'num_feedbacks {before} -> {g.num_feedbacks}')
+
+
 # ---------------------------------------------------------------------------
 # native replay shared by the step contracts: run an algorithm for n proposals
 # with feedback for the first f of them, recover a fresh instance from that
